@@ -55,6 +55,10 @@ SHALLOW_COPY_FUNCS = {"copy", "copy.copy", "dict", "list", "set", "sorted", "rev
 AMBIENT_MODULES = {"time", "datetime", "random", "secrets", "uuid"}
 AMBIENT_OS = {"environ", "urandom", "getpid", "getenv", "times"}
 ENUM_BASES = {"Enum", "IntEnum", "Flag", "IntFlag", "StrEnum", "enum.Enum", "enum.IntEnum", "enum.Flag", "enum.IntFlag"}
+# stateful by design (protocol handlers, storage, transmission tracking): properties C08/C17/C18/C20.
+# self-mutation and ambient reads are inventoried for the codec modules only (everything else).
+NON_CODEC_DIRS = ("okdmr/dmrlib/protocols/", "okdmr/dmrlib/storage/", "okdmr/dmrlib/transmission/")
+SCALAR_ANNOTATIONS = {"int", "str", "bytes", "float", "bool", "Optional[int]", "Optional[str]", "Optional[bytes]", "Optional[float]", "Optional[bool]"}
 EXEMPT_SELF_METHODS = {"__init__", "__post_init__", "__new__", "__init_subclass__", "__setattr__", "__set_name__"}
 
 
@@ -144,8 +148,11 @@ class ModuleScan:
         self.class_attrs = class_attrs  # names bound at class level anywhere in the package
         self.module_globals = module_globals  # rel -> set of mutable global names
         self.ambient = {}  # local name -> dotted origin
+        self.codec = not rel.startswith(NON_CODEC_DIRS)
 
     def add(self, qual, kind, detail):
+        if kind in ("self-mutation", "ambient-read") and not self.codec:
+            return
         self.items.add((self.rel, qual, kind, detail))
 
     # ------------------------------------------------------------------------------------------
@@ -238,6 +245,10 @@ class ModuleScan:
             params.append(args.vararg.arg)
         if args.kwarg:
             params.append(args.kwarg.arg)
+        scalar = set()
+        for a in args.posonlyargs + args.args + args.kwonlyargs:
+            if a.annotation is not None and short(a.annotation, 80) in SCALAR_ANNOTATIONS:
+                scalar.add(a.arg)
         decos = [dotted(d.func) if isinstance(d, ast.Call) else dotted(d) for d in fn.decorator_list]
         decos = [d or "" for d in decos]
         is_static = "staticmethod" in decos
@@ -446,6 +457,8 @@ class ModuleScan:
                     elif isinstance(tg, ast.Name) and isinstance(node, ast.AugAssign):
                         # `x += …` on a list / bitarray / bytearray parameter is in place
                         t = taint.get(tg.id)
+                        if t and t[0] == PARAM and t[1] in scalar:
+                            t = None
                         if t and t[0] in (PARAM, SHARED) and isinstance(node.op, (ast.Add, ast.BitOr, ast.BitAnd, ast.BitXor, ast.LShift, ast.RShift, ast.Mult)):
                             note(tg, f"{tg.id} {type(node.op).__name__}= (in place if the object is mutable)")
             elif isinstance(node, ast.Delete):
@@ -453,7 +466,7 @@ class ModuleScan:
                     if isinstance(tg, (ast.Subscript, ast.Attribute)):
                         note(tg.value, f"del {short(tg, 40)}")
             elif isinstance(node, ast.Call) and isinstance(node.func, ast.Attribute):
-                if node.func.attr in MUTATING_METHODS:
+                if node.func.attr in MUTATING_METHODS or node.func.attr.startswith("set_"):
                     note(node.func.value, f"{short(node.func, 50)}()")
             elif isinstance(node, (ast.Global, ast.Nonlocal)):
                 self.add(q, "global-write", f"{type(node).__name__.lower()} {', '.join(node.names)}")
